@@ -617,21 +617,24 @@ class NodeRunner:
             if len(ts) > 1:
                 sim.probe("two_async_consumers_on_one_queue")
             await asyncio.sleep(ns / 1e9)
+            # a consumer that ended by itself can only have ended by raising (receive_async never returns)
+            ended = [t for t in ts if t.done()]
+            excs = [(t.exception() or RuntimeError("receive_async ended without being cancelled")) for t in ended]
             for t in ts:
-                if t.done():
-                    # the consumer ended by itself: receive_async only ends by raising
-                    exc = t.exception()
-                    for u in ts:
-                        u.cancel()
-                    raise exc if exc else RuntimeError("receive_async ended without being cancelled")
-            for t in ts:
-                t.cancel()
+                if not t.done():
+                    t.cancel()
             sim.probe("async_cancelled")
             for t in ts:
                 try:
                     await t
                 except asyncio.CancelledError:
                     pass
+                except Exception:  # noqa: BLE001  already collected above
+                    pass
+            if excs:
+                # report the exception the simulator did not inject, if there is one
+                excs.sort(key=lambda e: isinstance(e, OSError) and getattr(e, "errno", None) == errno.EIO)
+                raise excs[0]
 
         try:
             loop.run_until_complete(main())
@@ -916,6 +919,13 @@ def run(spec: dict, decider: Decider, keep_events: bool = False) -> RunResult:
     if viol is not None:
         disc = viol.disc or "-"
         kinds = fault_kinds_left(spec)
+        if viol.clause != "roundtrip":
+            # a payload of a class that pack/unpack is known not to carry (known_findings.json) is still part of this
+            # (minimised) spec: what follows from it is attributed to that finding, not reported as something new
+            present = {classify_payload([op["to"], op["data"]]) for n in spec["nodes"] for op in n["script"] if op["op"] == "send"}
+            for cls in ("class-key", "style-prefix"):
+                if cls in present and cls not in disc:
+                    disc += "/with-" + cls
         if viol.clause != "roundtrip" and kinds:
             disc += "|" + ",".join(kinds)
         rr.violation = {"clause": viol.clause, "detail": viol.detail, "signature": f"{PROP}:{viol.clause}:{disc}"}
@@ -1043,6 +1053,10 @@ def check_history(spec, hist: History, path, gremlin: Gremlin, sim: Sim, rt_fail
             seen[s] = seen.get(s, 0) + 1
             if seen[s] > allowed:
                 raise Violation("duplicate", f"{inc['node']}#{inc['idx']} received serial {s} {seen[s]} times", "-")
+            if s in gremlin.corrupted:
+                # the simulator damaged this record on disk at some instant: a reader that had it buffered before may
+                # still hand it out, later than records appended meanwhile; nothing is asserted about its position
+                continue
             offs = [rec["start"]] + gremlin.dups.get(s, []) if rec["start"] is not None else []
             nxt = [o for o in offs if o > last_off]
             if not nxt:
